@@ -609,17 +609,19 @@ def rangecoder_checks(ctx, tier):
     quick = tier == "quick"
     base = {"ShiftBits": "2", "RangeBits": "8", "ModelBits": "3", "MoveBits": "2", "MaxBits": "5" if quick else "6",
             "NCtx": "1" if quick else "2", "MaxDirect": "3", "AsmClamp": "FALSE", "MaxCut": "2"}
-    runs = [("w8", base)]
+    ALL = ("RoundTrip", "BytesAccounted", "PendingSizeExact", "PosAccounting", "PastEndReadsZero", "TypeOK")
+    LIMB = ("EncLimbAgree", "DecLimbAgree")
+    runs = [("w8", base, "RangeCoderLimbEq", ALL + LIMB)]
     if not quick:
-        runs.append(("w8-long", dict(base, MaxBits="8", NCtx="1", MaxDirect="2")))
-        runs.append(("w12", dict(base, RangeBits="12", ShiftBits="3", ModelBits="4", MoveBits="2", MaxBits="5", NCtx="1")))
-    for name, consts in runs:
+        # all bit scripts <= 8 on the integer formulation alone (318 025 states); a 12-bit range / 3-bit shift / 4-bit
+        # probability instance with 6-bit limbs
+        runs.append(("w8-long", dict(base, MaxBits="8", NCtx="1", MaxDirect="2"), "RangeCoder", ALL))
+        runs.append(("w12", dict(base, RangeBits="12", ShiftBits="3", ModelBits="4", MoveBits="2", MaxBits="5", NCtx="1"), "RangeCoderLimbEq", ALL + LIMB))
+    for name, consts, module, invs in runs:
         # the repaired design satisfies everything; the same exploration checks that the limb formulation used for
         # real-width trace validation (RangeCoderLimb) computes exactly what the integer formulation computes
-        d, mod, cfg = core.write_model("RangeCoderLimbEq", consts, invariants=("RoundTrip", "BytesAccounted", "PendingSizeExact",
-                                                                               "PosAccounting", "PastEndReadsZero", "TypeOK",
-                                                                               "EncLimbAgree", "DecLimbAgree"))
-        r = ctx.tlc(mod, cfg, name=f"RangeCoder + RangeCoderLimbEq {name} (repaired design)", cwd=d, workers=6, timeout=1800)
+        d, mod, cfg = core.write_model(module, consts, invariants=invs)
+        r = ctx.tlc(mod, cfg, name=f"{module} {name} (repaired design)", cwd=d, workers=8, timeout=1800)
         ctx.require_coverage(r, ["EncBit", "EncDirect"], "RangeCoder")
     # the clamping design: TLC must find the disagreement, and reports the classes of states where it occurs
     reg = dict(base, AsmClamp="TRUE", NCtx="1")
